@@ -244,7 +244,7 @@ def run(ctx):
                    "construction (different subject or different generated input); empty inputs and refused builds are not counted.  "
                    "B2: (subject, concretisation, history) for every history of %s successful push/set operations over 3 abstract values "
                    "generated by TLC from MC_PackedSeqGen, content after every step compared for equality with the TLC-computed one; "
-                   "mismatching and sampled histories judged by TLC." % (17, "6" if ctx.thorough else "5"))
+                   "mismatching and sampled histories judged by TLC." % (18, "6" if ctx.thorough else "5"))
     for p in (clean[:1] + [q for q in b1files if "intvec_i64" in q][:1] + [q for q in b1files if "sorted_default" in q][:1]):
         _sample_runs(ctx, p, want=1)
     if b2files:
